@@ -1142,6 +1142,7 @@ int Interpret::interpPipe() {
     bool inComment = false;
     bool inString = false;
     bool inQuotedSymbol = false;
+    bool escapedInString = false;
 
     bool done  = false;
     buf[0] = '\0';
@@ -1192,7 +1193,14 @@ int Interpret::interpPipe() {
             }
             assert (not inComment and not inQuotedSymbol);
             if (inString) {
-                inString = (c != '\"');
+                // The lexer reads \" and \\ inside a string literal as escapes: an escaped quote does not end the string
+                if (escapedInString) {
+                    escapedInString = false;
+                } else if (c == '\\') {
+                    escapedInString = true;
+                } else {
+                    inString = (c != '\"');
+                }
             } else if (c == '\"') {
                 inString = true;
             }
